@@ -41,6 +41,9 @@ def run(ctx):
     ctx.rule("R02.key", "listeners are keyed by the connection; removed on close and "
              "disconnect when listening")
     ctx.rule("R02.unique", "one registry object per key for all holders (E4)")
+    shared.r_options(ctx, "R02.fanout", "the `message` frame the server builds is longer than "
+                     "the `add` that carried it, so an accepted message can exceed the limit "
+                     "on the way out: the send raises and no subscriber receives it")
     h_add = handler_for(model, "add")
     h_bind = handler_for(model, "bind")
     h_open = handler_for(model, "open")
